@@ -39,11 +39,12 @@ MODULES = ["tensorly.base", "tensorly.cp_tensor", "tensorly.tucker_tensor", "ten
            "tensorly.tenalg.einsum_tenalg.n_mode_product", "tensorly.tenalg.einsum_tenalg._khatri_rao", "tensorly.tenalg.einsum_tenalg._kronecker",
            "tensorly.tenalg.einsum_tenalg.mttkrp", "tensorly.tenalg.einsum_tenalg.generalised_inner_product", "tensorly.tenalg.einsum_tenalg.outer_product",
            "tensorly.tenalg.einsum_tenalg._batched_tensordot", "tensorly.tenalg.einsum_tenalg.moments", "tensorly.tenalg.einsum_tenalg._tt_matrix",
-           "tensorly.metrics.factors", "tensorly.metrics.similarity", "tensorly.metrics.regression", "tensorly.metrics.leverage_scores"]
+           "tensorly.metrics.factors", "tensorly.metrics.similarity", "tensorly.metrics.regression", "tensorly.metrics.leverage_scores", "tensorly.metrics.entropy",
+           "tensorly.contrib.decomposition._tt_cross", "tensorly.contrib.decomposition.tt_TTOI"]
 WHITELIST = {("cp_mode_dot", "cp_tensor"): lambda kw: not kw.get("copy", False), ("tucker_mode_dot", "tucker_tensor"): lambda kw: not kw.get("copy", False),
              ("hals_nnls", "V"): lambda kw: True}
 DRIVERS = ["c02", "c03", "c04", "c05", "c06", "c10", "c11", "c12", "c13", "c14", "c19", "c20"]
-OWN = ["own_decomp", "own_fault", "own_misc"]
+OWN = ["own_decomp", "own_fault", "own_misc", "own_api"]
 CASE_TIMEOUT = {"quick": 180, "thorough": 3000}
 WALL_BUDGET = {"quick": 900, "thorough": 5400}
 
@@ -281,7 +282,7 @@ def plan(tier, seed):
 
 def floors(tier):
     return {"calls_observed": 8000, "calls_observed_that_raised": 100, "functions_wrapped": 150, "own/fault_injected": 40, "own/readonly_args": 40,
-            "own/view_args": 40, "own/option_lists": 40}
+            "own/view_args": 40, "own/option_lists": 40, "own/api_base": 20, "own/api_random": 10, "own/api_svd_helpers": 10}
 
 
 def bounds(tier):
@@ -496,6 +497,141 @@ def own(g, rs, ctx):
                 delattr(inst, name)
             except AttributeError:
                 setattr(inst, name, orig)
+        return
+    if g == "own_api":
+        # public entry points that no driver calls directly (audit of the per-entry call counts in the evidence): index
+        # manipulations, random generators, initialisers, remaining decompositions and SVD helpers, each with caller-owned
+        # arrays, lists of shapes / ranks / modes and user initialisations
+        import tensorly.random as RND
+        from tensorly.tenalg import svd as S
+        from tensorly.decomposition import _cp, _tucker, _parafac2, _constrained_cp, _tr_als, _cp_power, _symmetric_cp
+        from tensorly import parafac2_tensor as p2m, cp_tensor as cpm_
+        which = gen.choice(rs, ["base", "base", "random", "init_cp", "init_tucker", "init_constrained", "init_parafac2", "ttm", "tr_sampled", "power",
+                                "sym_power", "lstsq_grad", "p2_apply", "svd_helpers", "validate", "contrib", "methods", "entropy"])
+        _TL.last_entry = "api:" + which
+        ctx.count("own/api_" + which)
+        Xs = argkind(rs, rs.standard_normal(shp), ctx)
+        if which == "base":
+            shape_l = list(shp)
+            for mode in range(order):
+                U = tl.unfold(Xs, mode)
+                tl.fold(argkind(rs, np.array(U), ctx), mode, shape_l)
+            v = tl.tensor_to_vec(Xs)
+            tl.vec_to_tensor(argkind(rs, np.array(v), ctx), shape_l)
+            pu = tl.partial_unfold(Xs, 0, skip_begin=1, skip_end=0, ravel_tensors=bool(rs.rand() < 0.5))
+            tl.partial_fold(tl.partial_unfold(Xs, 0, skip_begin=1), 0, shape_l, skip_begin=1)
+            pv = tl.partial_tensor_to_vec(Xs, skip_begin=1)
+            tl.partial_vec_to_tensor(argkind(rs, np.array(pv), ctx), shape_l, skip_begin=1)
+            rows, cols = [order - 1, 0], [m_ for m_ in range(1, order - 1)]
+            tl.base.matricize(Xs, rows, cols)
+            tl.base.matricize(Xs, rows)
+            del pu
+        elif which == "random":
+            shape_l, rank_l = list(shp), [2] * order
+            RND.random_cp(shape_l, 2, random_state=seed)
+            RND.random_tucker(shape_l, rank_l, random_state=seed)
+            RND.random_tt(shape_l, [1] + [2] * (order - 1) + [1], random_state=seed)
+            RND.random_tr(shape_l, [2] * (order + 1), random_state=seed)
+            RND.random_tt_matrix([2, 3, 2, 3], [1, 2, 1], random_state=seed)
+            RND.random_parafac2([(4, 3), (5, 3), (3, 3)], 2, random_state=seed)
+            RND.random_tensor(shape_l, random_state=seed)
+        elif which == "init_cp":
+            init = cp_init(False)
+            _cp.initialize_cp(Xs, R, init=init, normalize_factors=bool(rs.rand() < 0.5), random_state=seed)
+            _cp.initialize_cp(X, R, init=cp_init(True), non_negative=True, random_state=seed)
+            _cp.initialize_cp(Xs, R, init="svd", mask=argkind(rs, (rs.uniform(size=shp) < 0.8).astype(float), ctx), random_state=seed)
+        elif which == "init_tucker":
+            rk = [min(2, s) for s in shp]
+            core = argkind(rs, rs.standard_normal(rk), ctx)
+            fs_ = [argkind(rs, gen.orth(rs, s, r), ctx) for s, r in zip(shp, rk)]
+            modes_l = list(range(order))
+            _tucker.initialize_tucker(Xs, rk, modes_l, seed, init=gen.choice(rs, [(core, fs_), [core, fs_], TuckerTensor((core, fs_))]))
+            _tucker.initialize_tucker(Xs, rk, modes_l, seed, init="svd", mask=argkind(rs, (rs.uniform(size=shp) < 0.8).astype(float), ctx))
+            _tucker.initialize_tucker(X, rk[:2], [0, order - 1], seed, init="random", non_negative=True)
+        elif which == "init_constrained":
+            _constrained_cp.initialize_constrained_parafac(X, R, init=cp_init(form=gen.choice(rs, ["tuple", "wrapper"])), non_negative=True, random_state=seed)
+            _constrained_cp.initialize_constrained_parafac(Xs, R, init="svd", l1_reg=[0.1] * order, random_state=seed)
+        elif which == "init_parafac2":
+            K = 4
+            sl = [argkind(rs, rs.standard_normal((int(rs.randint(3, 6)), K)), ctx) for _ in range(3)]
+            r2 = 2
+            init = (None, [rs.standard_normal((3, r2)), rs.standard_normal((r2, r2)), rs.standard_normal((K, r2))], [gen.orth(rs, s_.shape[0], r2) for s_ in sl])
+            _parafac2.initialize_decomposition(sl, r2, init=gen.choice(rs, [init, "svd", "random"]), random_state=seed)
+        elif which == "ttm":
+            Xm = argkind(rs, rs.standard_normal((2, 3, 3, 2)), ctx)
+            D.tensor_train_matrix(Xm, [1, 2, 1])
+            D.tensor_train_matrix(Xm, 3)
+        elif which == "tr_sampled":
+            D.tensor_ring_als_sampled(Xs, [2] * (order + 1), [8] * order, n_iter_max=2, random_state=seed, uniform_sampling=bool(rs.rand() < 0.5))
+        elif which == "power":
+            D.parafac_power_iteration(Xs, 2, n_repeat=2, n_iteration=2)
+            _cp_power.power_iteration(Xs, n_repeat=2, n_iteration=2)
+        elif which == "sym_power":
+            a = rs.standard_normal((3, 2))
+            Xsym = argkind(rs, np.einsum("ir,jr,kr->ijk", a, a, a), ctx)
+            D.symmetric_parafac_power_iteration(Xsym, 2, n_repeat=2, n_iteration=2)
+            _symmetric_cp.symmetric_power_iteration(Xsym, n_repeat=2, n_iteration=2)
+        elif which == "lstsq_grad":
+            cp = cp_init(False)
+            cpm_.cp_lstsq_grad(cp, Xs, return_loss=bool(rs.rand() < 0.5), mask=argkind(rs, (rs.uniform(size=shp) < 0.8).astype(float), ctx) if rs.rand() < 0.5 else None)
+        elif which == "p2_apply":
+            K, r2 = 4, 2
+            J = [int(rs.randint(3, 6)) for _ in range(3)]
+            tup = (rs.uniform(0.5, 2, r2), [argkind(rs, rs.standard_normal((3, r2)), ctx), argkind(rs, rs.standard_normal((r2, r2)), ctx), argkind(rs, rs.standard_normal((K, r2)), ctx)],
+                   [argkind(rs, gen.orth(rs, j, r2), ctx) for j in J])
+            p2m.apply_parafac2_projections(tup)
+            p2m.parafac2_to_slice(tup, 1)
+            p2m.parafac2_to_unfolded(tup, 1)
+            p2m.parafac2_to_vec(tup)
+        elif which == "svd_helpers":
+            M = argkind(rs, rs.standard_normal((int(rs.randint(3, 7)), int(rs.randint(3, 7)))), ctx)
+            k = 2
+            S.symeig_svd(M, n_eigenvecs=k)
+            S.randomized_svd(M, n_eigenvecs=k, random_state=seed)
+            S.randomized_range_finder(M, k, random_state=seed)
+            U, s_, V = S.truncated_svd(M, n_eigenvecs=k)
+            Uc, Vc = argkind(rs, np.array(U), ctx), argkind(rs, np.array(V), ctx)
+            S.svd_flip(Uc, Vc, u_based_decision=bool(rs.rand() < 0.5))
+            S.make_svd_non_negative(argkind(rs, np.abs(np.asarray(M)), ctx), Uc, argkind(rs, np.array(s_), ctx), Vc, nntype=gen.choice(rs, ["nndsvd", "nndsvda"]))
+            S.svd_checks(M, n_eigenvecs=k)
+        elif which == "contrib":
+            from tensorly.contrib.decomposition import tensor_train_cross
+            from tensorly.contrib.decomposition.tt_TTOI import tensor_train_OI
+            Xc = argkind(rs, rs.standard_normal(gen.shape(rs, 3, 3, 5)), ctx)
+            tensor_train_cross(Xc, [1, 2, 2, 1], tol=1e-3, n_iter_max=3, random_state=seed)
+            tensor_train_OI(Xc, [1, 2, 2, 1], n_iter=1)
+        elif which == "methods":
+            # the wrapper objects' own methods, on objects built from the caller's arrays
+            from tensorly.tt_tensor import TTTensor
+            from tensorly.tr_tensor import TRTensor
+            cp = CPTensor((w_ := rs.uniform(0.5, 2, R), [argkind(rs, rs.standard_normal((s_, R)), ctx) for s_ in shp]))
+            cp.to_tensor(); cp.to_vec(); cp.to_unfolded(1); cp.norm(); cp.mode_dot(rs.standard_normal((2, shp[0])), 0)
+            rk = [min(2, s_) for s_ in shp]
+            tk = TuckerTensor((argkind(rs, rs.standard_normal(rk), ctx), [argkind(rs, rs.standard_normal((s_, r_)), ctx) for s_, r_ in zip(shp, rk)]))
+            tk.to_tensor(); tk.to_vec(); tk.to_unfolded(0); tk.mode_dot(rs.standard_normal((2, shp[1])), 1)
+            tr = [1] + [2] * (order - 1) + [1]
+            tt = TTTensor([argkind(rs, rs.standard_normal((tr[k_], shp[k_], tr[k_ + 1])), ctx) for k_ in range(order)])
+            tt.to_tensor(); tt.to_vec(); tt.to_unfolded(1)
+            rr = [2] * (order + 1)
+            trt = TRTensor([argkind(rs, rs.standard_normal((rr[k_], shp[k_], rr[k_ + 1])), ctx) for k_ in range(order)])
+            trt.to_tensor(); trt.to_vec(); trt.to_unfolded(1)
+            del w_
+        elif which == "entropy":
+            from tensorly.metrics import entropy as E
+            a = rs.standard_normal((4, 4))
+            rho = argkind(rs, a @ a.T / np.trace(a @ a.T), ctx)
+            E.vonneumann_entropy(rho)
+            E.cp_vonneumann_entropy(CPTensor((np.abs(rs.standard_normal(R)) + 0.1, [argkind(rs, rs.standard_normal((4, R)), ctx) for _ in range(2)])))
+        else:
+            from tensorly.tenalg.proximal import validate_constraints
+            from tensorly.cp_tensor import validate_cp_rank
+            from tensorly.tucker_tensor import validate_tucker_rank
+            from tensorly.tt_matrix import validate_tt_matrix_rank
+            validate_constraints(non_negative={0: True}, l1_reg=[None, 0.1] + [None] * (order - 2), n_const=order, order=1)
+            validate_cp_rank(list(shp), "same")
+            validate_tucker_rank(list(shp), [0.5] * order)
+            validate_tucker_rank(list(shp), [2] * 2, fixed_modes=[0]) if order > 2 else None
+            validate_tt_matrix_rank([2, 3, 2, 3], [1, 2, 1])
         return
     # own_misc: transforms / tenalg / metrics with caller-owned lists
     from tensorly import tenalg, cp_tensor as cpm, metrics
